@@ -557,7 +557,17 @@ func parseMultiPartHeader(multiPartHeader string) (header string, optional map[s
 func parseEMLAttachmentEmbed(contentDisposition []string, multiPart *multipart.Part, msg *Msg) error {
 	cdType, optional := parseMultiPartHeader(contentDisposition[0])
 	filename := "generic.attachment"
-	if name, ok := optional["filename"]; ok {
+	if mediaType, params, err := mime.ParseMediaType(contentDisposition[0]); err == nil {
+		// the structured parser handles quoted strings (a name may contain ';' or '=') and
+		// RFC 2231 parameters; go-mail itself writes non-ASCII names as RFC 2047 encoded words
+		cdType = mediaType
+		if name, ok := params["filename"]; ok && name != "" {
+			filename = name
+			if decoded, derr := (&mime.WordDecoder{}).DecodeHeader(name); derr == nil {
+				filename = decoded
+			}
+		}
+	} else if name, ok := optional["filename"]; ok {
 		if len(name) >= 2 && name[0] == '"' && name[len(name)-1] == '"' {
 			name = name[1 : len(name)-1]
 		}
